@@ -136,7 +136,7 @@ pub fn run(mut chk: Check) -> ! {
         })).collect();
         chk.explicit("each", &inputs, case_each);
     }
-    let n = chk.scale(8000, 400_000);
+    let n = chk.scale(24_000, 400_000);
     chk.campaign(CampaignCfg::new("corpus", n).len(0, 1500), case_corpus);
     chk.finish()
 }
